@@ -20,6 +20,12 @@ REL = [ENV.compile(e) for e in EXPRS]
 LT = {"leaf": Leaf, "int": int, "nbi": Union[None, bool, int]}[P.get("leaf", "nbi")]
 
 
+class _M:
+    def __init__(self, parts: tuple, obj: Any) -> None:
+        self.parts = parts
+        self.obj = obj
+
+
 def _build(nodes: List[Tuple[tuple, Any]]) -> Any:
     """The value in which each selected node is found at its location, array indices replaced by their rank."""
     trie: Dict[Any, Any] = {}
@@ -51,15 +57,25 @@ def _conv(t: Any) -> Any:
     return {k: _conv(t[k]) for k in keys}
 
 
+from vlib import oracle as _oracle  # noqa: E402
+from vlib.shape2ast import ast_of as _ast_of  # noqa: E402
+
+# locations of matches and of selected nodes come from the independent RFC 9535 evaluator, not from the library
+MATCH_AST = _ast_of(COMPILED)
+REL_AST = [_ast_of(r) for r in REL]
+assert MATCH_AST is not None and all(a is not None for a in REL_AST), "catalogue query outside the reference evaluator's grammar"
+
+
 def _expected(doc: Any) -> List[Any]:
     out = []
-    for m in COMPILED.finditer(doc):
+    for mparts, mobj in _oracle.evaluate(MATCH_AST, doc):
+        m = _M(mparts, mobj)
         if not isinstance(m.obj, (list, dict)):
             continue
         nodes: List[Tuple[tuple, Any]] = []
-        for r in REL:
-            for rm in r.finditer(m.obj):
-                nodes.append((rm.parts, rm.obj))
+        for r in REL_AST:
+            for rparts, robj in _oracle.evaluate(r, m.obj):
+                nodes.append((rparts, robj))
         if not nodes:
             continue
         if STYLE == Projection.FLAT:
